@@ -364,6 +364,7 @@ Proof.
   - inversion E; subst. eapply Edit_Inv; [apply validate_sync_spec; auto|auto].
   - eapply Edit_Inv; [eapply reset_buf_spec; eauto|auto].
   - inversion E; subst. eapply Edit_Inv; [apply validate_and_handle_spec; auto|auto].
+  - unfold hist_step in E. eapply install_menu_Inv; eauto.
 Qed.
 
 Theorem run_Inv ls : forall s, Inv s -> Inv (run s ls).
